@@ -63,12 +63,13 @@ func (b *bridge) RoundTrip(req *http.Request) (*http.Response, error) {
 type comp struct {
 	Type  string
 	Level int
+	Off   bool `json:",omitempty"` // compress=false while a compression type is configured (the documented default type is zlib)
 }
 
 func comps() []comp {
-	cs := []comp{{"none", 0}}
+	cs := []comp{{Type: "none"}, {Type: "zlib", Level: 6, Off: true}, {Type: "lz4", Level: 1, Off: true}}
 	for l := 0; l <= 9; l++ {
-		cs = append(cs, comp{"zlib", l}, comp{"lz4", l})
+		cs = append(cs, comp{Type: "zlib", Level: l}, comp{Type: "lz4", Level: l})
 	}
 	return cs
 }
@@ -277,7 +278,7 @@ func newForwarder(c comp, rec *fx.Recorder) (*statsd.HttpForwarderHandlerV2, *br
 	hc, _ := pool.Get("default")
 	hc.Client.Transport = br
 	hc.Client.Timeout = 0
-	h, err := forwarderFromConfig(pool, nil, map[string]any{"consolidator-slots": 1, "max-requests": 2, "concurrent-merge": 1, "compress": c.Type != "none", "compression-type": c.Type, "compression-level": c.Level, "max-request-elapsed-time": time.Second, "flush-interval": time.Second})
+	h, err := forwarderFromConfig(pool, nil, map[string]any{"consolidator-slots": 1, "max-requests": 2, "concurrent-merge": 1, "compress": c.Type != "none" && !c.Off, "compression-type": c.Type, "compression-level": c.Level, "max-request-elapsed-time": time.Second, "flush-interval": time.Second})
 	return h, br, err
 }
 
@@ -593,7 +594,7 @@ func runRoundtrip() {
 			}
 		}
 	}
-	res.Sample(map[string]any{"series": fmt.Sprint(menu[3], menu[40]), "compression": comp{"lz4", 3}})
+	res.Sample(map[string]any{"series": fmt.Sprint(menu[3], menu[40]), "compression": comp{Type: "lz4", Level: 3}})
 }
 
 // ---- corrupt bodies
